@@ -2,7 +2,7 @@
 """Sensitivity runs: apply one small semantic mutation to /repo's working tree, run the listed checks (quick tier),
 revert. A check is expected to exit 1 (VIOLATION) on its mutants. Usage: mutants.py [name-substring ...]
 Never leaves /repo modified (git checkout -- . in a finally block)."""
-import subprocess, sys, json, time, os
+import subprocess, sys, json, time, os, fcntl
 
 M = []
 def mut(name, file, old, new, checks):
@@ -51,17 +51,21 @@ def main():
     sel = sys.argv[1:]
     results = []
     # the evidence files of the unchanged tree must survive the mutant runs
-    sh("rm -rf /var/tmp/evidence.mut.bak && cp -a /verif/evidence /var/tmp/evidence.mut.bak")
     for m in M:
         if sel and not any(s in m['name'] for s in sel):
             continue
         path = '/repo/' + m['file']
+        # one user of /repo's working tree at a time (seeded.sh / preview.sh / runall.sh take the same lock)
+        lock = open('/var/tmp/verif-repo.lock', 'w')
+        fcntl.flock(lock, fcntl.LOCK_EX)
         src = open(path).read()
         if m['old'] not in src:
             print(f"!! {m['name']}: pattern not found in {m['file']}")
             results.append((m['name'], 'pattern-missing', {}))
+            lock.close()
             continue
         try:
+            sh("rm -rf /var/tmp/evidence.mut.bak && cp -a /verif/evidence /var/tmp/evidence.mut.bak")
             extra = ""
             if "oneshot_dummy" in m['new']:
                 extra = "\nfn oneshot_dummy() -> (tokio::sync::oneshot::Sender<bool>, tokio::sync::oneshot::Receiver<bool>) { tokio::sync::oneshot::channel() }\n"
@@ -77,7 +81,11 @@ def main():
             print(m['name'], res, flush=True)
         finally:
             sh("git -C /repo checkout -- .")
-    sh("cp -a /var/tmp/evidence.mut.bak/. /verif/evidence/ && rm -rf /var/tmp/evidence.mut.bak")
+            # evidence of the unchanged tree back in place before the lock is released
+            sh("cp -a /var/tmp/evidence.mut.bak/. /verif/evidence/")
+            lock.close()
+            json.dump(results, open('/verif/tools/mutants_last.json', 'w'), indent=1)
+    sh("rm -rf /var/tmp/evidence.mut.bak")
     caught = sum(1 for n, s, r in results if s == 'ran' and any(v[0] == 1 for v in r.values()))
     print(f"\n{caught}/{len(results)} mutants caught by at least one listed check")
     json.dump(results, open('/verif/tools/mutants_last.json', 'w'), indent=1)
